@@ -354,7 +354,9 @@ func c13_2(c *core.Ctx, p *core.Prog) {
 				}
 				args := core.CallArgs(child)
 				idx := core.StripConv(args[len(args)-1])
-				same := fAcc.Off == 0 && idx == ssa.Value(fAcc.Phi)
+				// both indices in the form φ + c (a range loop counts from -1 and uses φ+1)
+				iphi, ioff, iok := core.AffineIn(idx)
+				same := iok && iphi == fAcc.Phi && ioff == fAcc.Off
 				msg := fmt.Sprintf("the %s arm pairs child field i with child column i", kind)
 				bad := fmt.Sprintf("the %s arm pairs child field i with the child column at a different position (%s): the dictionary of a child is measured against the wrong column or not at all", kind, idx.String())
 				if same {
